@@ -33,6 +33,9 @@ type MathParagraph struct {
 
 // MarshalXML 自定义序列化
 func (mp *MathParagraph) MarshalXML(e *xml.Encoder, start xml.StartElement) error {
+	// 自定义序列化时 encoding/xml 不读取 XMLName 标签，需显式指定元素名为 w:p
+	start.Name = xml.Name{Local: "w:p"}
+
 	// 开始段落元素
 	if err := e.EncodeToken(start); err != nil {
 		return err
